@@ -459,6 +459,15 @@ pub fn bar_stream(grid: bool, min_len: usize, max_len: usize) -> BoxedStrategy<B
         .boxed()
 }
 
+/// one-price bars (open = high = low = close = the regime's value, so the close series has exactly the regime's
+/// structure: near-flat levels, ulp neighbours, plateaus survive), volumes from a small set incl. 0
+pub fn flat_bar_stream(grid: bool, min_len: usize, max_len: usize) -> BoxedStrategy<BarStream> {
+    let dom = if grid { Domain::PositiveGrid } else { Domain::Positive };
+    (stream(dom, min_len, max_len), vec(0usize..6, 1..=16))
+        .prop_map(|(s, vols)| BarStream { regime: s.regime, bars: s.vals.iter().enumerate().map(|(i, &x)| crate::adapter::RawBar::flat(x, [0.0, 1.0, 1.0, 250.0, 1e4, 37.5][vols[i % vols.len()]])).collect() })
+        .boxed()
+}
+
 /// valid bars quoted in an extremely small price unit (see Domain::TinyPositive)
 pub fn bar_stream_tiny(min_len: usize, max_len: usize) -> BoxedStrategy<BarStream> {
     bar_stream_dom(Domain::TinyPositive, min_len, max_len)
